@@ -316,15 +316,56 @@ func caseSimplify(r *lib.Rng, st *genStats) []string {
 	g := n.Build()
 	class, t := pickThreshold(r, g)
 	if r.Chance(1, 6) {
-		// targeted class: search for an areal input whose simplification fails validation (the
-		// error branch of the gate); the first hit of at most 400 draws is used
+		// targeted class: search for an areal input whose unvalidated simplification is not a valid
+		// geometry (the error branch of the gate must fire); the first hit of at most 400 draws is used
 		for try := 0; try < 400; try++ {
 			n2 := genGeom(r, []lib.Kind{lib.KPoly, lib.KMPoly, lib.KColl}, 2, st)
 			g2 := n2.Build()
 			_, t2 := pickThreshold(r, g2)
-			if _, err := g2.Simplify(t2); err != nil {
+			// criterion independent of the gate under test: the unvalidated result is invalid
+			if nv2, _ := g2.Simplify(t2, geom.NoValidate{}); nv2.Validate() != nil {
 				n, g, t, class = n2, g2, t2, "gate_error_search"
 				st.GateHits++
+				break
+			}
+		}
+	}
+	if r.Chance(1, 6) {
+		// targeted class: members that are fine one by one but collide after simplification; accepted
+		// when the unvalidated result is invalid although every member simplifies to a valid polygon
+		for try := 0; try < 60; try++ {
+			ct := geom.CoordinatesType(r.Intn(4))
+			c := newSrc(r, st)
+			mp, dn := genSiblingBay(r, ct, c, st)
+			n2 := mp
+			switch r.Intn(3) {
+			case 1:
+				n2 = &lib.Node{Kind: lib.KColl, CT: ct, Kids: []*lib.Node{mp}}
+			case 2:
+				n2 = &lib.Node{Kind: lib.KColl, CT: ct, Kids: []*lib.Node{genKind(r, lib.KLine, ct, c, 1, st),
+					{Kind: lib.KColl, CT: ct, Kids: []*lib.Node{mp}}}}
+			}
+			g2 := n2.Build()
+			if g2.Validate() != nil {
+				continue
+			}
+			st.Sibling++
+			scale := 1.0
+			if c.float {
+				scale = 1.09 // the affine map of the float class stretches lengths by about this factor
+			}
+			t2 := scale * (dn + 0.25 + float64(r.Intn(300))/100)
+			nv2, _ := g2.Simplify(t2, geom.NoValidate{})
+			membersFine := true
+			mpg := mp.Build().MustAsMultiPolygon()
+			for i := 0; i < mpg.NumPolygons(); i++ {
+				if p, _ := mpg.PolygonN(i).Simplify(t2, geom.NoValidate{}); p.Validate() != nil {
+					membersFine = false
+				}
+			}
+			if nv2.Validate() != nil && membersFine {
+				n, g, t, class = n2, g2, t2, "sibling_collision_search"
+				st.SibHits++
 				break
 			}
 		}
@@ -403,6 +444,7 @@ func caseInterp(r *lib.Rng, st *genStats) []string {
 }
 
 var evenCount int
+var evenMax = 30 // 50 in the thorough tier
 
 func caseEven(r *lib.Rng, st *genStats) []string {
 	n := genInterpLine(r, st)
@@ -416,7 +458,7 @@ func caseEven(r *lib.Rng, st *genStats) []string {
 	case 1:
 		k = r.Range(5, 12)
 	default:
-		k = r.Range(13, 50)
+		k = r.Range(13, evenMax)
 	}
 	out := guarded(func() string { return lib.Dump(ls.InterpolateEvenlySpacedPoints(k).AsGeometry()) })
 	return []string{"EVEN", fmt.Sprintf("n%d", minInt(k, 3)), lib.Dump(ls.AsGeometry()), fmt.Sprintf("%d", k), out}
@@ -550,6 +592,7 @@ func main() {
 	st := newGenStats()
 	if a.Tier == "thorough" {
 		maxInserted = 1500
+		evenMax = 50
 	}
 	ops := []opGen{
 		{"REV", 2, caseReverse},
@@ -588,7 +631,7 @@ func main() {
 	}
 	js, _ := json.Marshal(map[string]interface{}{"ops": st.Ops, "kinds": st.Kinds, "ctypes": st.CTs,
 		"lattice": st.Lattice, "general_position_floats": st.Floats, "with_repeated_vertices": st.Dups,
-		"closed_lines": st.Closed, "polygons_with_hole": st.Holes, "t_shaped_polygons_with_hole_in_stem": st.Bumps, "concave_shell_fat_hole": st.Gate, "simplify_error_search_hits": st.GateHits, "rejected_candidates": st.Rejected,
+		"closed_lines": st.Closed, "polygons_with_hole": st.Holes, "t_shaped_polygons_with_hole_in_stem": st.Bumps, "concave_shell_fat_hole": st.Gate, "simplify_error_search_hits": st.GateHits, "sibling_collision_candidates": st.Sibling, "sibling_collision_hits": st.SibHits, "rejected_candidates": st.Rejected,
 		"empty_members": st.EmptyMem})
 	fmt.Fprintf(w, "#GEN\t%s\n", js)
 }
